@@ -261,6 +261,9 @@ class C02(MsgProp):
         for n in (1059, 1065):
             for (ns, nb) in [(13, 31), (63, 31), (63, 6), (1, 31), (0, 0), (32, 12)]:
                 yield ("DEC " + hx(mk_frame(bias_payload(r, n, ns, nb))), "bias-max-counts", True)
+            # the same satellite in many groups: 256 .. 390 entries on one satellite without any group above 31
+            for (ns, nb) in [(9, 31), (12, 31), (9, 29), (10, 26), (13, 30), (2, 31), (20, 13)]:
+                yield ("DEC " + hx(mk_frame(bias_payload(r, n, ns, nb, same_sat=r.choice([0, 5, 31])))), "bias-repeated-satellite-groups", True)
         for _ in range(20 if not thorough else 300):
             s = rand_bytes(r, r.randrange(0, 3000))
             yield ("ITER " + hx(s), "raw-random", False)
@@ -345,7 +348,7 @@ def msm_payload_bits(r, n, satbits, sigbits, cellmask=None):
     return bits_to_bytes(bits)[:1023]
 
 
-def bias_payload(r, n, ns, nb):
+def bias_payload(r, n, ns, nb, same_sat=None):
     """hostile 1059 / 1065 payload: ns satellite blocks of nb entries each (recognised identifiers), header
     widths and identifiers from the translated schema"""
     import json as _json, os as _os
@@ -355,7 +358,7 @@ def bias_payload(r, n, ns, nb):
     bits = int_bits(n, 12) + [r.getrandbits(1) for _ in range(hdr)] + int_bits(ns, 6)
     ids = [i for i, _, _ in sch["bias_tables"]["df_msg%d_biases" % n]]
     for s_ in range(ns):
-        bits += int_bits(s_ % (1 << satbits), satbits) + int_bits(nb, 5)
+        bits += int_bits((same_sat if same_sat is not None else s_) % (1 << satbits), satbits) + int_bits(nb, 5)
         for j in range(nb):
             bits += int_bits(ids[j % len(ids)], 5) + [r.getrandbits(1) for _ in range(14)]
     return bits_to_bytes(bits)[:1023]
@@ -804,6 +807,8 @@ class C16(MsgProp):
         for n in (1059, 1065):
             for (ns, nb) in [(13, 31), (63, 31), (63, 6), (1, 31), (12, 31), (32, 12), (31, 31)]:
                 yield ("DEC " + hx(mk_frame(bias_payload(r, n, ns, nb))), "hostile-counts", True)
+            for (ns, nb) in [(9, 31), (12, 31), (10, 26), (2, 31)]:
+                yield ("DEC " + hx(mk_frame(bias_payload(r, n, ns, nb, same_sat=r.choice([0, 7, 31])))), "hostile-repeated-satellite", True)
 
     def entries(self, n, toks, with_bias=False):
         import struct
